@@ -127,11 +127,39 @@ def trend_cases(draw):
     case = draw(base_cases())
     case["degree"] = draw(st.integers(0, 4))
     case["damping"] = None
+    case["single"] = draw(st.integers(0, 5)) == 0  # data stored in single precision (verde then works in single precision: judged with that accuracy)
     return case
+
+
+def check_trend_single(case, ctx, e, n, data, weights, qe, qn):
+    deg = case["degree"]
+    d32 = data[0].astype("float32")
+    tr = vd.Trend(deg)
+    quiet(tr.fit, (e, n), d32, None if weights is None else weights[0])
+    jac = kernels.trend_jacobian(e, n, deg)
+    jq = kernels.trend_jacobian(qe, qn, deg)
+    w = np.ones(d32.size) if weights is None else np.asarray(weights[0], dtype="float64").ravel()
+    norm = np.sqrt((jac ** 2).sum(axis=0))
+    norm[norm == 0] = 1.0
+    a = (jac / norm) * np.sqrt(w)[:, None]
+    sv = np.linalg.svd(a, compute_uv=False)
+    if jac.shape[0] < jac.shape[1] or sv[-1] <= 0 or sv[0] / sv[-1] > 1e3:
+        ctx.skip("single_precision_ill_conditioned_or_underdetermined")
+    coef = np.linalg.lstsq(a, d32.astype("float64").ravel() * np.sqrt(w), rcond=None)[0] / norm
+    ref = jq @ coef
+    got = np.asarray(tr.predict((qe, qn)), dtype="float64").ravel()
+    amp = float(np.max(np.abs(jq) * np.abs(coef)[None, :])) + float(np.max(np.abs(d32))) + 1e-300
+    tol = 1e-5 * (sv[0] / sv[-1]) * amp + 1e-30  # float32 data close to its subnormal range carry no relative accuracy
+    ctx.check(np.all(np.abs(got - ref) <= tol), "Trend(%d) fitted to float32 data predicts %r, the least-squares polynomial gives %r (single-precision tolerance %.3g)",
+              deg, got[:4].tolist(), ref[:4].tolist(), tol)
+    ctx.label("deg%d" % deg, "float32_data")
+    ctx.nt(False)
 
 
 def check_trend(case, ctx):
     e, n, data, weights, qe, qn = arrays(case)
+    if case.get("single"):
+        return check_trend_single(case, ctx, e, n, data, weights, qe, qn)
     deg = case["degree"]
     tr = vd.Trend(deg)
     quiet(tr.fit, (e, n), data[0], None if weights is None else weights[0])
